@@ -21,4 +21,8 @@ CHECKS = {
         technique="property-based testing + coverage-guided fuzzing: exhaustive short sequences, Hypothesis per-coding-mode streams and OHWI volumes round-tripped through a pinned reference decoder and an independent traversal model; libFuzzer with ASan/UBSan on the C encoder with the round-trip oracle inside the target",
         text="The codec extension is rebuilt from the working tree for every run. encode()/npu_encode_weights() outputs are decoded by a pinned copy of the reference decoder and must equal the source weights in the hardware block-traversal order computed by an independent NumPy model, padded only with zeros, length % 16 == 0; out-of-range weights must raise; a libFuzzer target links the repository's mlw_encode.c with sanitizers (with and without NDEBUG).",
         note="trusted base: vendor/mlw_decode.c (pinned reference decoder), lib/wref.py traversal model, clang sanitizers"),
+    "C08": dict(
+        technique="property-based testing: Hypothesis-generated encode requests parsed back range by range against an independent reference (pinned decoder + traversal model + TFLite multiplier derivation); generated request histories compared with pristine-process encodings (history invariant)",
+        text="encode_weight_and_scale_tensor is called directly on generated operators (conv/depthwise/FC/transpose conv, 1-2 cores, uneven depth slices); every (core, slice) range is checked for alignment, order, coverage, one 10-byte record per owned channel with the reference bias/multiplier/shift, and a weight stream that decodes to exactly those channels; request sequences sharing weight tensors must return bytes identical to a fresh encoding in a forked pristine process.",
+        note="trusted base: vendor/mlw_decode.c, lib/wref.py, lib/tflref.py; requests mimic the reader's per-operator tensor clones"),
 }
